@@ -45,6 +45,8 @@ type FuncContract struct {
 	NoFrame       bool
 	Ghosts        []string
 	Options       map[string]bool
+	FnCalls       map[string]*FuncContract // assumed contracts of function values called as <expr> (trusted boundary)
+	Inline        bool // callers in the same package execute the body instead of using the contract
 	Panics        []Clause // the function panics (does not return) exactly when one of these holds
 }
 
@@ -298,6 +300,46 @@ func (cs *ContractSet) loadFile(path string) error {
 			return fmt.Errorf("%s:%d: 'assume' is not allowed in contracts", path, l.no)
 		case "pure":
 			cur.Pure = true
+		case "inline":
+			cur.Inline = true
+		case "fncall":
+			// fncall <callee-expr> (requires|ensures|modifies) <clause>
+			f := strings.SplitN(rest, " ", 3)
+			if len(f) < 3 {
+				return fmt.Errorf("%s:%d: bad fncall directive", path, l.no)
+			}
+			if cur.FnCalls == nil {
+				cur.FnCalls = map[string]*FuncContract{}
+			}
+			key := strings.Join(strings.Fields(f[0]), "")
+			sub := cur.FnCalls[key]
+			if sub == nil {
+				sub = &FuncContract{Key: key, Mode: cur.Mode, Loops: map[int]*LoopContract{}, FnPure: map[string]bool{}}
+				cur.FnCalls[key] = sub
+				cs.Scan["fncall (assumed contract of a function value)"]++
+			}
+			switch f[1] {
+			case "requires", "ensures":
+				cl, err := mk(strings.TrimSpace(f[2]), l.no)
+				if err != nil {
+					return err
+				}
+				if f[1] == "requires" {
+					sub.Requires = append(sub.Requires, cl)
+				} else {
+					sub.Ensures = append(sub.Ensures, cl)
+				}
+			case "modifies":
+				for _, part := range splitTopLevel(f[2], ',') {
+					cl, err := mk(strings.TrimSpace(part), l.no)
+					if err != nil {
+						return err
+					}
+					sub.Modifies = append(sub.Modifies, cl)
+				}
+			default:
+				return fmt.Errorf("%s:%d: bad fncall directive %q", path, l.no, f[1])
+			}
 		case "noframe":
 			cur.NoFrame = true
 		case "fnpure":
